@@ -468,7 +468,8 @@ def run(ctx):
              "is replayed on the real Orchestrator with an on-disk HDDResults store, failing stub classifiers whose "
              "predictions encode their training set, and after every run the files (content hashes, which run wrote "
              "them), the persisted registry, the fit / predict calls made and what a fresh process can read back are "
-             "compared with the specification's snapshot. Non-trivial = sequence containing a crash.",
+             "compared with the specification's snapshot; a regression benchmark on a whole-number target must read back the "
+             "real-valued predictions from both stores. Non-trivial = sequence containing a crash.",
         assumptions=["compat shim", "KFold without shuffling; in-memory result stores recompute by design and are not claimed",
                      "spec->code comparison of complete snapshots (every state variable is observable from the store and the stub's call log)"])
 
